@@ -1,14 +1,17 @@
 package main
 
 import (
-	"strings"
 	"bytes"
+	"encoding/base64"
 	"errors"
 	"fmt"
 	"io"
 	"net"
 	"os"
+	"strings"
 	"time"
+	rn "verif/harness/ref/name"
+	rt "verif/harness/ref/tsig"
 
 	"github.com/miekg/dns"
 	"verif/harness/fw"
@@ -112,12 +115,12 @@ func (c *dgramConn) Write(p []byte) (int, error) {
 	return len(p), nil
 }
 func (c *dgramConn) WriteTo(p []byte, a net.Addr) (int, error) { return c.Write(p) }
-func (c *dgramConn) Close() error                               { return nil }
-func (c *dgramConn) LocalAddr() net.Addr                        { return &net.UDPAddr{} }
-func (c *dgramConn) RemoteAddr() net.Addr                       { return &net.UDPAddr{} }
-func (c *dgramConn) SetDeadline(t time.Time) error              { c.rdl = append(c.rdl, t); return nil }
-func (c *dgramConn) SetReadDeadline(t time.Time) error          { c.rdl = append(c.rdl, t); return nil }
-func (c *dgramConn) SetWriteDeadline(t time.Time) error         { return nil }
+func (c *dgramConn) Close() error                              { return nil }
+func (c *dgramConn) LocalAddr() net.Addr                       { return &net.UDPAddr{} }
+func (c *dgramConn) RemoteAddr() net.Addr                      { return &net.UDPAddr{} }
+func (c *dgramConn) SetDeadline(t time.Time) error             { c.rdl = append(c.rdl, t); return nil }
+func (c *dgramConn) SetReadDeadline(t time.Time) error         { c.rdl = append(c.rdl, t); return nil }
+func (c *dgramConn) SetWriteDeadline(t time.Time) error        { return nil }
 
 func c12Body(n int, seed byte) []byte {
 	b := make([]byte, n)
@@ -548,6 +551,95 @@ func c12Spaces(c *fw.Ctx) {
 						r.Sample(func() any { return full })
 					})
 				}
+			}
+		})
+	// TSIG-signed replies: the ID that is matched is the ID in the header of the reply. A TSIG record carries an
+	// "original ID" of its own (RFC 8945 §4.2: what the ID was when the message was signed — a forwarder may have
+	// rewritten the header since); a reply is no more this exchange's because its original ID equals the query's, and
+	// no less because it differs. Replies are signed by the independent model (ref/tsig) over the MAC the query will
+	// carry (the query's TSIG time is fixed, so the model can compute it beforehand).
+	c.Space("ids-signed", "Client.ExchangeWithConn with a TSIG key over the scripted datagram socket and the scripted stream: signed replies {header ID foreign / original ID = query ID; header ID = query ID / original ID foreign (validly signed); both matching} in every order of ≤ 2 before a matching one: datagram ⇒ the first reply whose *header* ID matches, stream ⇒ the first reply, ErrId iff its header ID differs; non-trivial: all", true,
+		func(emit func(func(*fw.R))) {
+			kinds := []string{"hdr-foreign", "orig-foreign", "match"}
+			var seqs [][]string
+			for _, a := range kinds {
+				seqs = append(seqs, []string{a})
+				for _, b := range kinds {
+					seqs = append(seqs, []string{a, b})
+				}
+			}
+			for _, sq := range seqs {
+				sq := sq
+				emit(func(r *fw.R) {
+					r.Nontrivial()
+					secret := []byte("0123456789abcdef0123456789abcdef")
+					b64 := base64.StdEncoding.EncodeToString(secret)
+					now := time.Now().Unix()
+					mkq := func() *dns.Msg {
+						q := new(dns.Msg)
+						q.SetQuestion("want.example.", dns.TypeA)
+						q.Id = 0x4242
+						q.SetTsig("k.example.", dns.HmacSHA256, 300, now)
+						return q
+					}
+					// the MAC the query will carry, by the model
+					qb := mkq()
+					qb.Extra = nil
+					qbody, _ := qb.Pack()
+					rec := rt.Rec{Name: rn.Parse("k.example.").Labels, Class: 255, Alg: rn.Parse("hmac-sha256.").Labels, Time: uint64(now), Fudge: 300, OrigID: 0x4242}
+					_, qmac, ok := rt.Sign(qbody, rec, secret, nil, false)
+					if !ok {
+						r.Fail("internal/ids-signed", "reference signer refused")
+						return
+					}
+					full := append(append([]string(nil), sq...), "match")
+					var dgrams [][]byte
+					var stream []byte
+					firstHdrMatch := -1
+					for i, k := range full {
+						m := new(dns.Msg)
+						m.SetReply(mkq())
+						m.Extra = nil
+						m.Answer = []dns.RR{&dns.A{Hdr: dns.RR_Header{Name: "want.example.", Rrtype: 1, Class: 1, Ttl: uint32(i + 1)}, A: net.IP{10, 0, 0, byte(i + 1)}}}
+						rr := rec
+						switch k {
+						case "hdr-foreign":
+							m.Id, rr.OrigID = 0x2222, 0x4242
+						case "orig-foreign":
+							m.Id, rr.OrigID = 0x4242, 0x3333
+						default:
+							m.Id, rr.OrigID = 0x4242, 0x4242
+						}
+						body, _ := m.Pack()
+						signed, _, ok := rt.Sign(body, rr, secret, qmac, false)
+						if !ok {
+							r.Fail("internal/ids-signed", "reference signer refused")
+							return
+						}
+						dgrams = append(dgrams, signed)
+						stream = append(stream, c12Frame(signed)...)
+						if k != "hdr-foreign" && firstHdrMatch < 0 {
+							firstHdrMatch = i
+						}
+					}
+					cl := &dns.Client{TsigSecret: map[string]string{"k.example.": b64}}
+					rep, _, err := cl.ExchangeWithConn(mkq(), &dns.Conn{Conn: &dgramConn{in: dgrams}, TsigSecret: cl.TsigSecret})
+					if err != nil || rep == nil || rep.Id != 0x4242 || len(rep.Answer) != 1 || rep.Answer[0].Header().Ttl != uint32(firstHdrMatch+1) {
+						got := -1
+						if rep != nil && len(rep.Answer) == 1 {
+							got = int(rep.Answer[0].Header().Ttl) - 1
+						}
+						r.Fail("ids/datagram-signed", "signed replies %v: got the reply at position %d (err %v); want the one at position %d, the first whose header ID is the query's", full, got, err, firstHdrMatch)
+					}
+					rep, _, err = cl.ExchangeWithConn(mkq(), &dns.Conn{Conn: &segConn{data: stream, eofErr: os.ErrDeadlineExceeded}, TsigSecret: cl.TsigSecret})
+					if full[0] == "hdr-foreign" {
+						if !errors.Is(err, dns.ErrId) {
+							r.Fail("ids/stream-signed", "signed replies %v on a stream: err %v (reply %v); want ErrId, the first reply's header ID is not the query's", full, err, rep != nil)
+						}
+					} else if err != nil || rep == nil || rep.Id != 0x4242 || rep.Answer[0].Header().Ttl != 1 {
+						r.Fail("ids/stream-signed", "signed replies %v on a stream: got %v, err %v; want the first reply (its header ID is the query's and its signature is valid)", full, rep, err)
+					}
+				})
 			}
 		})
 	// "until the matching one or the deadline arrives": the deadline of an exchange is the one it starts with. A
